@@ -252,6 +252,29 @@ class Interp:
         if k in ("copy", "move"):
             return self.read_place(st, frame, op["place"])
         if k == "const":
+            if op.get("uargs") and "unevaluated" in op and "tree" not in op:
+                # an associated constant used in generic code (`<U as TimeUnit>::FIELD`), in a body that is being interpreted
+                # for a concrete U: the impl's own constant is evaluated (its initialiser is an ordinary body)
+                self_s = self.subst(self.f.ty_s(op["uargs"][0]))
+                tr_, _, nm_ = op["unevaluated"].rpartition("::")
+                key_ = (tr_, self_s, nm_)
+                memo_ = self.__dict__.setdefault("_assoc_consts", {})
+                if key_ not in memo_:
+                    memo_[key_] = [b_ for b_ in self.f.raw["bodies"] if b_.get("name") == nm_ and str(b_.get("kind", "")).startswith("AssocConst")
+                                   and (b_.get("impl") or {}).get("trait") == tr_ and (b_.get("impl") or {}).get("self_s") == self_s]
+                if not memo_[key_] and op["unevaluated"] in self.f.bodies and str(self.f.bodies[op["unevaluated"]].get("kind", "")).startswith("AssocConst"):
+                    memo_[key_] = [self.f.bodies[op["unevaluated"]]]       # the trait's own default value
+                if len(memo_[key_]) == 1:
+                    cb_ = memo_[key_][0]
+                    fid_ = self.new_frame(st)
+                    saved_ = self.tsub
+                    self.tsub = {}
+                    try:
+                        outs_ = self.run_body(cb_, st, fid_, 1)
+                    finally:
+                        self.tsub = saved_
+                    if len(outs_) == 1:
+                        return outs_[0][1]
             if "tree_ref" in op:
                 # a reference to a constant / immutable static whose contents are known: a live reference to a cell holding them
                 return ("ref", st.alloc(self.const_tree(op["tree_ref"])))
@@ -1134,7 +1157,13 @@ class Interp:
                 fid = self.new_frame(st)
                 st.frames[fid][1] = fut
                 st.frames[fid][2] = ("sym", "task_context")
-                res = self.run_body(b, st, fid, depth + 1, stack)
+                saved_ts = self.tsub
+                if fut[1] in self.closure_tsub:
+                    self.tsub = dict(self.closure_tsub[fut[1]])     # the body of a generic async fn sees its type parameters
+                try:
+                    res = self.run_body(b, st, fid, depth + 1, stack)
+                finally:
+                    self.tsub = saved_ts
                 return [(s2, self.mk(self.POLL, "Ready", rv)) for s2, rv in res]
             if self.await_hook is not None:
                 hv = self.await_hook(self, st, self.resolve(st, fut))
@@ -1465,6 +1494,19 @@ class Interp:
 
     def iter_next(self, st, itp, depth=0, stack=()):
         O = self.OPTION
+        # an iterator written in the crate (a struct with its own `impl Iterator`): its `next` is what runs
+        if itp[0] == "ref":
+            cur_ = self.load_ptr(st, itp[1])
+            if cur_[0] == "adt" and self.f.adts.get(cur_[1], {}).get("local"):
+                memo_ = self.__dict__.setdefault("_local_iters", {})
+                if cur_[1] not in memo_:
+                    memo_[cur_[1]] = [d_ for d_, b_ in self.f.bodies.items() if b_.get("name") == "next" and not b_.get("parent")
+                                      and (b_.get("impl") or {}).get("trait") == "std::iter::Iterator"
+                                      and (b_.get("impl") or {}).get("self_s", "").split("<")[0] == cur_[1]]
+                if len(memo_[cur_[1]]) == 1 and memo_[cur_[1]][0] not in stack and depth < self.max_depth + 2:
+                    p_ = memo_[cur_[1]][0]
+                    fnd_ = {"path": p_, "full": p_, "name": "next", "local": True, "resolved": p_, "resolved_local": True, "args": []}
+                    return self.call_fn(st, fnd_, [itp], depth, stack)
         it = self.deref(st, itp) if itp[0] == "ref" else itp
         # `into_iter` of something that already is an iterator adaptor is that adaptor
         while it[0] == "op" and it[1] == "into_iter" and it[2] and it[2][0][0] == "call" and \
